@@ -112,10 +112,17 @@ def _release_cut(fn, start, failure_blocks, release_blocks, extra_cut_edges=None
 
 
 def _null_return_blocks(fn):
+    """blocks that give the return place a null pointer (directly, or through a temporary as after `return helper(..)`)"""
     out = set()
     for c in fn.live_calls(r"core::ptr::null_mut$|core::ptr::null$"):
         if c.dest and c.dest["l"] == 0 and "p" not in c.dest:
             out.add(c.bb)
+    for bi, si, rv in fn.defs.get(0, []):
+        if bi not in fn.live or rv is None or si == "call":
+            continue
+        e = mir.strip_casts(fn.rvalue_expr(rv))
+        if e[0] == "call" and isinstance(e[1], str) and re.search(r"core::ptr::null(_mut)?$", e[1]):
+            out.add(bi)
     return out
 
 
